@@ -274,7 +274,7 @@ func RunC18(t TB, p *Program) *c18Result {
 			compare(when, snap, ref)
 			snap.Close()
 		case "batch":
-			if closedC || batches >= maxTop-1 {
+			if closedC || batches >= maxTop {
 				continue
 			}
 			mb, err := e.buildBatch(coll, op.B)
